@@ -266,13 +266,30 @@ def generated_case(ctx, rng, idx):
         # be fixed in between and released again)
         how = ['fix_then_enable', 'enable_then_fix', 'enable_fix_fix',
                'fix_enable_fix', 'enable_fix_swap', 'fix_then_enable',
-               'fix_then_enable'][int(rng.integers(7))]
+               'fix_then_enable', 'select_then_fix',
+               'select_then_fix'][int(rng.integers(9))]
         feats['fix_history'] = how
         ka = int(rng.integers(0, k + 1)) if how in (
             'enable_fix_fix', 'fix_enable_fix') else k
         part_a = {cur[i]: float(x[i]) for i in fi[:ka]}
         part_b = {cur[i]: float(x[i]) for i in fi[ka:]}
         others = [i for i in range(len(names)) if i not in set(fi)]
+        select_first = None
+        if how == 'select_then_fix':
+            # a selection that contains parameters fixed afterwards: the
+            # sensitivities are those of the selected parameters that stay
+            # free
+            k_sel = int(rng.integers(1, len(cur) + 1))
+            select_first = [cur[i] for i in rng.permutation(len(cur))[:k_sel]]
+            if not any(cur[i] in select_first for i in fi):
+                select_first.append(cur[int(fi[0])])
+            if all(n_ in [cur[i] for i in fi] for n_ in select_first):
+                select_first = None
+                how = 'enable_then_fix'
+                feats['fix_history'] = how
+                obj.enable_sensitivities(True)
+            else:
+                obj.enable_sensitivities(True, select_first)
         if how.startswith('enable'):
             obj.enable_sensitivities(True)
         if how == 'enable_fix_swap' and others:
@@ -292,6 +309,8 @@ def generated_case(ctx, rng, idx):
             ctx.violation('published_parameter_order', 'reduced_order',
                           {'chi': obj.parameters()}, feats)
     subset = None
+    if reduced and locals().get('select_first'):
+        subset = list(select_first)
     try:
         if not obj.has_sensitivities():
             if rng.random() < (0.7 if reduced else 0.4) and \
